@@ -28,6 +28,8 @@ def dec(k):
         return [bool(x) for x in k['v']] if t == 'boollist' else np.array(k['v'], dtype=bool)
     if t == 'ell':
         return Ellipsis
+    if t == 'npmask':
+        return np.array(k['v'], dtype=bool)
     if t == 'npint':
         return np.int64(k['v'])
     if t == 'ndarray':
@@ -89,7 +91,7 @@ def col_positions(cols, names):
             if not -D <= p < D:
                 raise Refused('position out of range')
         return ps, ps, False
-    if t == 'boollist':
+    if t in ('boollist', 'npmask'):
         m = [bool(x) for x in cols['v']]
         if len(m) != D:
             raise Refused('boolean column list of wrong length')
@@ -120,15 +122,15 @@ def m_getitem(h, rows, cols):
         if cols['t'] == 'absent':
             v = h.vals[r]
             if v.ndim == 2:
-                return MHandle(v, list(h.meta), '2d')
+                return MHandle(v, [dict(m) for m in h.meta], '2d')
             if v.ndim == 1:
-                return MHandle(v, list(h.meta), '1d-row')
+                return MHandle(v, [dict(m) for m in h.meta], '1d-row')
             if v.ndim == 0 or np.isscalar(v):
                 return MHandle(v, None, 'scalar')
             return MHandle(v, None, 'other')
         ck, pos, scalar = col_positions(cols, h.names)
         v = h.vals[r, ck] if cols['t'] != 'ell' else h.vals[r, ...]
-        meta = [h.meta[p] for p in pos]
+        meta = [dict(h.meta[p]) for p in pos]
         if np.ndim(v) == 0:
             return MHandle(v, None, 'scalar')
         if np.ndim(v) == 2:
@@ -148,7 +150,7 @@ def m_getitem(h, rows, cols):
     if np.ndim(v) == 0:
         return MHandle(v, None, 'scalar')
     if h.role == '1d-col' and cols['t'] == 'absent':
-        return MHandle(v, list(h.meta), '1d-col')
+        return MHandle(v, [dict(m) for m in h.meta], '1d-col')
     # a two-part key on a 1-D sample (NumPy accepts it only with an Ellipsis): the class cannot know
     # which axis the second part addresses and the property does not define it -> values only
     return MHandle(v, None, '1d-other')
